@@ -50,7 +50,7 @@ BUDGET = {
     "thorough": {"runs": 900, "wall": 1700},
 }
 _ALGOS = ["DYNAMOSA", "DYNAMOSA", "MOSA", "MIO", "WHOLE_SUITE", "RANDOM"]
-_MODULES = ["tiny", "words", "shapes", "floats", "zoo", "plain", "gallery", "gallery"]
+_MODULES = ["tiny", "words", "shapes", "floats", "zoo", "plain", "gallery", "gallery", "shop.core", "shop.core"]
 _RUNNER = str(simkit.VERIF / "simcheck" / "e1_runner.py")
 
 
